@@ -214,10 +214,10 @@ def token_regions(cssutils, text, tk=None, encoding='utf-8', ident_form='either'
                 and bs_before_unencodable(val, encoding):
             regs.add('C03-backslash-before-unencodable')
         if typ in ('IDENT', 'HASH', 'DIMENSION', 'ATKEYWORD') and \
-                (val.strip() == '' or (val.endswith(' ') and not val.endswith('\\ '))):
-            # Out.append / _remove_last_if_S take an item that consists of white space (non-ASCII white space such as
-            # U+2028 is a legal identifier) or ends in an unescaped space (the terminator of an escape above U+10FFFF,
-            # which is kept as written) for a separator
+                (val.endswith(' ') and not val.endswith('\\ ')):
+            # Out.append takes an item that ends in an unescaped space (the terminator of an escape above U+10FFFF, which is
+            # kept as written) for a separator. (An item that consists of non-CSS white space such as U+2028 — a legal
+            # identifier — is no longer removed: fixed by 5c3733f.)
             regs.add('C03-ident-edge-whitespace')
         if typ == 'COMMENT' and not all(encodable(ch, encoding) for ch in val):
             # comments are kept verbatim by the tokenizer, but the escapecss error handler still writes an unencodable
